@@ -61,7 +61,10 @@ class DensityMatrixEvolution(MatrixData, BasisManaged, Saveable):
             
         """
 
-        ti, dt = self.TimeAxis.locate(time)
+        # the grid point closest to the requested time (locate() returns the
+        # lower neighbor, which for a time on the grid can be the previous
+        # point because of rounding)
+        ti = self.TimeAxis.nearest(time)
 
         # the state handed out owns its data: it changes basis on its own and
         # writing into it does not change the evolution
@@ -318,7 +321,10 @@ class ReducedDensityMatrixEvolution(DensityMatrixEvolution):
             
         """
 
-        ti, dt = self.TimeAxis.locate(time)
+        # the grid point closest to the requested time (locate() returns the
+        # lower neighbor, which for a time on the grid can be the previous
+        # point because of rounding)
+        ti = self.TimeAxis.nearest(time)
 
         # the state handed out owns its data: it changes basis on its own and
         # writing into it does not change the evolution
